@@ -35,3 +35,25 @@ Proof.
   destruct (smiles_valid mg) eqn:E; [intros _; exact E | intro H; exfalso; apply H; reflexivity].
 Qed.
 Print Assumptions C02_exit_gate.
+
+(* ring-closure labels of spliced children: a positive verdict of the splice check on one substitution of the merger
+   means the child builds, inside the host, exactly the structure it builds alone; a negative verdict names a label
+   of the child that is open in the host at the marker (the child would close a ring of the host) *)
+From GV Require Import Model.Splice Proofs.Embed Proofs.SpliceThm.
+Theorem C02_fresh_labels_embed :
+  forall sym me child, splice_check sym me child = SpFresh ->
+  exists pre post m st c a0 rest,
+    lexS me = Some (pre ++ m :: post) /\ is_marker sym m = true /\
+    lexS child = Some (TAtom a0 :: rest) /\
+    run pst0 pre = Some st /\ p_cur st = Some c /\
+    forall sk, run pst0 (TAtom a0 :: rest) = Some sk ->
+               run pst0 (pre ++ TAtom a0 :: rest) = Some (embed st c a0 sk).
+Proof. exact splice_check_sound. Qed.
+Print Assumptions C02_fresh_labels_embed.
+
+Theorem C02_reused_label_is_open :
+  forall sym me child l, splice_check sym me child = SpReused l ->
+  exists st post rest a0, host_state sym me = Some (st, post) /\ lexS child = Some (TAtom a0 :: rest) /\
+                          In (TRing l) rest /\ find_open l (p_open st) <> None.
+Proof. exact splice_check_reused. Qed.
+Print Assumptions C02_reused_label_is_open.
